@@ -679,3 +679,75 @@ def read_csv_names(ctx):
                       key=f'{R}|{q}|names-not-sorted-by-number')
     if n < 5:
         ctx.unrec(R, 'sites', found=n, reason='expected the five read_csv(usecols, names) sites confirmed by reading')
+
+
+# ---------------------------------------------------------------------------
+# RES: lock acquire/release pairing
+
+def lock_pairing(ctx, quals):
+    R = 'RES.lock-pairing'
+    for q in quals:
+        fa = ctx.fa(q)
+        acq = calls(fa, method='acquire')
+        rel = calls(fa, method='release')
+        short = '.'.join(q.split('.')[-2:])
+        if not acq:
+            ctx.unrec(R, short, ctx.where(fa), reason='no lock.acquire() found at a confirmed lock site')
+            continue
+        for k, a in enumerate(acq):
+            lockobj = receiver(a)
+            tb = [t for t in a.trys if t[1] == 'body']
+            partners = [r for r in rel if receiver(r) == lockobj and any(
+                t[1] == 'finally' and tb and t[2] == tb[-1][2] for t in r.trys)]
+            inst = f'{short}#{k + 1}'
+            if not tb:
+                ctx.bad(R, inst + '.in-try', ctx.where(fa, a), found='acquire outside try', expected='acquire inside try whose finally releases',
+                        key=f'{R}|{q}|acquire-outside-try')
+                continue
+            if not partners:
+                ctx.bad(R, inst + '.release-in-finally', ctx.where(fa, a), found='no release in the finally of the same try',
+                        expected='lock.release() in finally', reason='an exception between acquire and release would leave the lock held',
+                        key=f'{R}|{q}|release-not-in-finally')
+                continue
+            r = partners[0]
+            ga = {(c, p) for (c, p), kd in zip(a.guards, a.gkinds) if kd == 'if' and c[0] != 'unk'}
+            gr = {(c, p) for (c, p), kd in zip(r.guards, r.gkinds) if kd == 'if' and c[0] != 'unk'}
+            # compare only the innermost predicates added inside the try
+            ctx.check(ga - gr == set() and gr - ga == set(), R, inst + '.same-predicate', ctx.where(fa, r),
+                      found=f'acquire when {sorted(T.show(c) for c, p in ga - gr)} / release when {sorted(T.show(c) for c, p in gr - ga)}' if ga != gr else 'same predicate',
+                      expected='acquire and release under the same predicate',
+                      reason='a lock released but never acquired (or the reverse) breaks every later worker')
+
+
+# ---------------------------------------------------------------------------
+# DEAD: an if/elif chain with two structurally equal tests
+
+def dead_branches(ctx, quals):
+    import ast
+    R = 'DEAD.duplicate-test'
+    n = 0
+    for q in quals:
+        fa = ctx.fa(q)
+        for node in ast.walk(fa.fi.node):
+            if not isinstance(node, ast.If):
+                continue
+            chain = [node]
+            cur = node
+            while len(cur.orelse) == 1 and isinstance(cur.orelse[0], ast.If):
+                cur = cur.orelse[0]
+                chain.append(cur)
+            if len(chain) < 2:
+                continue
+            n += 1
+            seen = {}
+            dup = None
+            for c in chain:
+                k = ast.dump(c.test)
+                if k in seen:
+                    dup = (seen[k], c)
+                seen.setdefault(k, c)
+            where = f'{fa.fi.file.replace(ctx.repo.root + "/", "")}:{node.lineno} {q}'
+            ctx.check(dup is None, R, f'{q.split(".")[-1]}@chain{n}', where,
+                      found=f'test of line {dup[1].lineno} repeats the test of line {dup[0].lineno}: {ast.unparse(dup[1].test)}' if dup else f'{len(chain)} distinct tests',
+                      expected='all tests of an if/elif chain are distinct', reason='the second arm is unreachable',
+                      key=f'{R}|{q}|{ast.unparse(dup[1].test) if dup else ""}')
